@@ -299,7 +299,10 @@ func applyDefect(r *rand.Rand, c *gen.PI, first bool) (Defect, bool) {
 		usd := func(n string) *gen.Expr { return gen.Mon(gen.Asset("USD"), gen.Num(n)) }
 		st := gen.Stmt{K: "send", Amt: usd("10"), Src: &gen.Src{K: "acc", E: gen.Acc("world")}, Dst: acc("b")}
 		badDst := &gen.Dst{K: "acc", E: bad}
-		switch r.IntN(8) {
+		switch r.IntN(9) {
+		case 8: // an allotment item whose share of the amount is nothing (1 split in halves: 1 and 0): still evaluated
+			st.Amt = usd("1")
+			st.Dst = &gen.Dst{K: "allot", Items: []gen.DstItem{{A: gen.Allot{K: "lit", S: "1/2"}, To: gen.KoD{D: acc("a")}}, {A: gen.Allot{K: "lit", S: "1/2"}, To: gen.KoD{D: badDst}}}}
 		case 0: // remaining of an in-order destination
 			st.Dst = &gen.Dst{K: "seq", Clauses: []gen.DstClause{{Cap: *usd("3"), To: gen.KoD{D: acc("a")}}}, Rem: &gen.KoD{D: badDst}}
 		case 1: // second clause of an in-order destination (7 left when it is reached)
